@@ -404,8 +404,9 @@ def parse(source_code: str) -> ast.Module:
             f"{lineno:<4}{'->' if lineno==error.lineno else ' |'} {line}"
             for lineno, line in enumerate(source_code_lines, start=1)
         ]
-        start = max(0, error.lineno - 50)
-        end = min(len(error_lines), error.lineno + 50)
+        error_lineno = error.lineno or 1  # There is none for a source with null bytes
+        start = max(0, error_lineno - 50)
+        end = min(len(error_lines), error_lineno + 50)
         error_code_segment = "".join(error_lines[start:end])
         logger.error(
             "Failed to parse source with error:\n{}\n\n\nCode:\n\n{}",
